@@ -397,6 +397,8 @@ static void do_request(int caller, int target, int idform, const char *payload, 
 		snprintf(r->idtext, sizeof(r->idtext), "%d", 1000 + reqctr);
 	} else if (idform == 1) {
 		snprintf(r->idtext, sizeof(r->idtext), "\"q%d\"", reqctr);
+	} else if (idform == 3) {
+		snprintf(r->idtext, sizeof(r->idtext), "%d.5", 1000 + reqctr); /* a number that is no integer: the answer must carry it unchanged */
 	}
 	r->deadline = sim_now() + 5000000000ULL;
 	r->fresh = defer_settle;
@@ -710,7 +712,7 @@ static void run_payloads(void)
 	int kind = xp_choose(2, XP_SCENARIO, "caller-transport");
 	int target = xp_choose(3, XP_SCENARIO, "target");
 	int pl = xp_choose((int)(sizeof(PAYLOADS) / sizeof(PAYLOADS[0])), XP_SCENARIO, "payload");
-	int idform = xp_choose(3, XP_SCENARIO, "idform");
+	int idform = xp_choose(4, XP_SCENARIO, "idform"); /* integer, string, none, non-integer number */
 	int to = xp_choose(3, XP_SCENARIO, "timeout");
 	int behaviour = xp_choose(6, XP_SCENARIO, "owner-behaviour"); /* result, error, none(timeout), duplicate, forged-first, owner leaves */
 	static const char *const REPLYVAL[] = {NULL /* the default object */, "null", "false", "0", "\"\"", "[]", "{}"};
@@ -889,6 +891,6 @@ const struct driver drv_c03 = {
     .name = "c03",
     .property = "C03",
     .run = run,
-    .rule = "interleaving layer: every sequence of enabled actions up to the depth bound over {requests from 2 callers and a bystander to 2 owners, owner replies (result, error, duplicate, forged with another owner's live id / a never-issued id / a non-string id), clock advance to the next deadline, disconnect and reconnect of every slot}, judged after every action by a reference model of in-flight requests; payload layer: full product caller transport x target x payload x id form x timeout form x owner behaviour x value of the owner's result / error member (object, null, false, 0, empty string / array / object) x {owner acts at once; elements declare a timeout of 0.1 s / 10 s and the owner acts 1 ms before the deadline that follows from request timeout, else element timeout, else 5 s}; sweep layer: 2..40 requests of two callers pending at one owner when the owner or a caller leaves (FIN / reset), then the owner answers everything, then everybody leaves; an execution is non-trivial when it ran to its final expiry phase with the ledger balanced; states = canonical model states (merged tier) or distinct (model state, remaining depth) pairs",
+    .rule = "interleaving layer: every sequence of enabled actions up to the depth bound over {requests from 2 callers and a bystander to 2 owners, owner replies (result, error, duplicate, forged with another owner's live id / a never-issued id / a non-string id), clock advance to the next deadline, disconnect and reconnect of every slot}, judged after every action by a reference model of in-flight requests; payload layer: full product caller transport x target x payload x id form (integer, string, none, non-integer number) x timeout form x owner behaviour x value of the owner's result / error member (object, null, false, 0, empty string / array / object) x {owner acts at once; elements declare a timeout of 0.1 s / 10 s and the owner acts 1 ms before the deadline that follows from request timeout, else element timeout, else 5 s}; sweep layer: 2..40 requests of two callers pending at one owner when the owner or a caller leaves (FIN / reset), then the owner answers everything, then everybody leaves; an execution is non-trivial when it ran to its final expiry phase with the ledger balanced; states = canonical model states (merged tier) or distinct (model state, remaining depth) pairs",
     .assumptions = "timeout and shutdown answers are only required to be error responses (their texts are not compared)|an immediate refusal is accepted only while the owner has at least 2^(ROUTING_TABLE_ORDER-1) requests in flight|a reply carrying a non-string id is a protocol violation of that owner: the daemon may drop it, which the model treats as that owner disconnecting|descriptor budget passes: a request may be refused for lack of descriptors only while connections plus requests in flight have used the budget up (one descriptor per connection and per request in flight is assumed to be enough)|a request to an owner that has stopped reading may be answered with an error at once (the forward failed); it must then never be answered again",
 };
